@@ -1,6 +1,6 @@
 """Entry point of ./check: generic flow shared by all properties (P, T and K obligations; §5 of DESIGN.md)."""
 import shutil, os, sys, os, json, time, re, argparse, importlib, concurrent.futures, hashlib
-from . import core
+from . import core, multi
 from .core import log
 
 PROPS = ["C%02d" % i for i in range(1, 21)]
@@ -20,7 +20,8 @@ class Trace:
 
 def trace_header(t):
     """first line of a replay file: how the trace has to be run (build variant, backend, extra configuration lines, golden fixture)"""
-    return "## trace variant=%s backend=%s fixture=%s conf_extra_hex=%s\n" % (t.variant, t.backend, getattr(t, "fixture", None) or "", (t.conf_extra or "").encode().hex())
+    return "## trace variant=%s backend=%s fixture=%s conf_extra_hex=%s env_hex=%s\n" % (t.variant, t.backend, getattr(t, "fixture", None) or "", (t.conf_extra or "").encode().hex(),
+                                                                                         json.dumps(t.env or {}, sort_keys=True).encode().hex())
 
 
 class TraceResult:
@@ -37,7 +38,10 @@ def run_trace(trace, keepdir=None):
                 fx = os.path.join(core.VERIF, "fixtures", trace.fixture)
                 shutil.copytree(os.path.join(fx, "tokens"), os.path.join(sc.dir, "tokens"), dirs_exist_ok=True)
                 prefix = open(os.path.join(fx, "creation.transcript")).read() + "reexec\n= 0\n"
-            rc, out, err = core.run_harness(trace.ops, sc.dir, trace.variant, trace.backend, trace.conf_extra, env_extra=trace.env)
+            if trace.ops.startswith("P") and multi.TAG.match(trace.ops.split("\n", 1)[0]):
+                rc, out, err = multi.run_multi(trace.ops, sc.dir, trace.variant, trace.backend, trace.conf_extra, env_extra=trace.env)
+            else:
+                rc, out, err = core.run_harness(trace.ops, sc.dir, trace.variant, trace.backend, trace.conf_extra, env_extra=trace.env)
         except Exception as e:                      # timeout etc.
             return TraceResult(trace, -1, "", str(e), [], [], {}, True)
     lines = [l for l in out.splitlines() if l.strip()]
@@ -76,24 +80,28 @@ def shrink(trace, keeps, budget_s=40):
     lines = trace.ops.rstrip("\n").split("\n")
     def mk(ls): return Trace(trace.name, "\n".join(ls) + "\n", trace.variant, trace.backend, trace.conf_extra, trace.env, getattr(trace, 'fixture', None))
     n = 2
-    live = [i for i, l in enumerate(lines) if l != "nop"]
+    def nopped(l):       # multi-process op files keep the process tag, so that each process's op numbering (the @k references) is unchanged
+        m = multi.TAG.match(l)
+        return ("P%s nop" % m.group(1)) if m else "nop"
+    is_nop = lambda l: l == "nop" or l.endswith(" nop")
+    live = [i for i, l in enumerate(lines) if not is_nop(l)]
     while len(live) >= 2 and time.time() - t0 < budget_s:
         chunk = max(1, len(live) // n)
         progressed = False
         for start in range(0, len(live), chunk):
             if time.time() - t0 > budget_s: break
             cand = list(lines)
-            for i in live[start:start + chunk]: cand[i] = "nop"
+            for i in live[start:start + chunk]: cand[i] = nopped(cand[i])
             if keeps(run_trace(mk(cand))):
                 lines = cand
-                live = [i for i, l in enumerate(lines) if l != "nop"]
+                live = [i for i, l in enumerate(lines) if not is_nop(l)]
                 n = max(n - 1, 2); progressed = True
                 break
         if not progressed:
             if chunk == 1: break
             n = min(len(live), n * 2)
     # drop trailing nops
-    while lines and lines[-1] == "nop": lines.pop()
+    while lines and is_nop(lines[-1]): lines.pop()
     return mk(lines)
 
 
@@ -170,7 +178,7 @@ def replay(mod, ctx, path):
     ops = "\n".join(l for l in text.splitlines() if not l.startswith("##")) + "\n"
     hdr = dict(kv.split("=", 1) for l in text.splitlines() if l.startswith("## trace ") for kv in l.split()[2:] if "=" in kv)
     tr = Trace("replay", ops, hdr.get("variant", getattr(mod, "REPLAY_VARIANT", "plain")), hdr.get("backend", "file"),
-               bytes.fromhex(hdr.get("conf_extra_hex", "")).decode(), None, hdr.get("fixture") or None)
+               bytes.fromhex(hdr.get("conf_extra_hex", "")).decode(), json.loads(bytes.fromhex(hdr.get("env_hex", "") or "7b7d").decode()) or None, hdr.get("fixture") or None)
     r = run_trace(tr)
     print(r.transcript)
     for m in r.mism: print(m)
